@@ -166,7 +166,7 @@ class Evaluator(object):
     """
 
     def __init__(self, program, fi, bind=None, facts=None, oracle=None, inline=None, mode='fork',
-                 max_paths=4000, inline_depth=3, fork_asserts=False, self_term=None):
+                 max_paths=4000, inline_depth=3, fork_asserts=False, self_term=None, track_assign=False):
         self.P = program
         self.fi = fi
         self.bind = bind or {}
@@ -177,6 +177,7 @@ class Evaluator(object):
         self.max_paths = max_paths
         self.inline_depth = inline_depth
         self.fork_asserts = fork_asserts
+        self.track_assign = track_assign
         self.paths = []
         self._loop_ids = {}
         self._try_ids = {}
@@ -244,7 +245,13 @@ class Evaluator(object):
                 if id(e) not in seen:
                     seen.add(id(e))
                     events.append(e)
-        return State(env, facts, events, first.guards, first.loops, first.intry)
+        guards = first.guards
+        for s in states[1:]:
+            n = 0
+            while n < len(guards) and n < len(s.guards) and guards[n] == s.guards[n]:
+                n += 1
+            guards = guards[:n]
+        return State(env, facts, events, guards, first.loops, first.intry)
 
     # ------------------------------------------------------------ branching
     def lookup_fact(self, atom, st):
@@ -438,6 +445,8 @@ class Evaluator(object):
     def assign_target(self, tgt, value, st, node):
         """-> list of states"""
         if isinstance(tgt, ast.Name):
+            if self.track_assign:
+                self.emit(st, 'assign', tgt.id, value, st.env.get(tgt.id), node=node)
             st.env[tgt.id] = value
             return [st]
         if isinstance(tgt, (ast.Tuple, ast.List)):
